@@ -174,44 +174,65 @@ def f_r4_order(schema: Schema, rep: Report):
     appends = cfg.nodes_calling(lambda c: isinstance(c.func, ast.Attribute) and c.func.attr == "append" and text(c.func.value) == args_n)
     if not kwstores or not appends:
         raise AnalysisError("F-R4: reducer has no keyword store / list append")
-    # order guard
-    guards = []
-    strict = None
-    for n in cfg.nodes:
-        if n.kind != "test" or not any(isinstance(s, ast.Raise) for s in n.stmt.body):
-            continue
-        t = norm(n.stmt.test)
-        conj = [text(v) for v in t.values] if isinstance(t, ast.BoolOp) and isinstance(t.op, ast.And) else [text(t)]
-        cmp_ = [c for c in conj if c in (f"{idx} <= {prev_n}", f"{idx} < {prev_n}")]
-        if not cmp_:
-            continue
-        rest = [c for c in conj if c not in cmp_]
-        # the exemption must be exactly "both are list members"
-        islist_names = [nm for nm, ds in defs.items() for d in ds if d.kind == "assign" and "listaggregates" in text(ex.x(d.value))]
-        ok_rest = (not rest) or (len(rest) == 1 and islist_names and prevlist_n is not None and rest[0] in (
-            f"not ({islist_names[0]} and {prevlist_n})", f"not ({prevlist_n} and {islist_names[0]})",
-            f"not {islist_names[0]} or not {prevlist_n}", f"not {prevlist_n} or not {islist_names[0]}",
-        ))
-        guards.append(n)
-        strict = cmp_[0] == f"{idx} <= {prev_n}"
-        rep.check("F-R4", "update_args:order-guard-exemption", bool(ok_rest), f"the order test is exempted by {rest}; only `both current and previous are list members` may exempt it" if not ok_rest else "", f"{rel}:{n.stmt.lineno}")
-    if not guards:
+    # order guard, decided on the enumerated paths (temporaries expanded): wherever a value is stored, the conditions
+    # established so far imply `prev < index` or `both this and the previous child are list members`
+    from . import paths as PT
+
+    def _atom_of(src: str):
+        # the condition as the path engine itself would record it (locals expanded, and/or/not kept as structure)
+        return PT.cond_of(ast.parse(src, mode="eval").body, ex.x)
+
+    ppl = PT.enumerate_paths(inner, None, ex)
+    pcfg = ppl.cfg
+    islist_names = [nm for nm, ds in defs.items() for d in ds if d.kind == "assign" and "listaggregates" in text(ex.x(d.value))]
+    after = _atom_of(f"{prev_n} < {idx}")
+    not_before = _atom_of(f"{idx} <= {prev_n}")
+    not_before = PT.Cond("not", [not_before])  # `not (idx <= prev)` == prev < idx ; kept for symmetry of spellings
+    weak_after = PT.Cond("not", [_atom_of(f"{idx} < {prev_n}")])  # prev <= idx
+    both_list = PT.Cond("and", [_atom_of(islist_names[0]), _atom_of(prevlist_n)]) if islist_names and prevlist_n is not None else None
+    strict_goal = PT.any_of(after, *( [both_list] if both_list is not None else [] ))
+    weak_goal = PT.any_of(after, weak_after, *( [both_list] if both_list is not None else [] ))
+    keytxt = text(ast.parse(f"{elem}.tag.lower()", mode="eval").body)
+    dup_atom = _atom_of(f"{keytxt} in {kwargs_n}")
+    pstores = []
+    for sn in kwstores + appends:
+        pn = [x for x in pcfg.nodes if x.stmt is sn.stmt and x.kind == sn.kind]
+        if pn:
+            pstores.append((sn, pn[0]))
+    if not pstores:
+        raise AnalysisError("F-R4: stores not found on the enumerated paths")
+    any_order_test = bool((after.atoms() | weak_after.atoms()) & set(PT.atoms_of(ppl)))
+    if not any_order_test:
         rep.check("F-R4", "update_args:order-guard", False, f"no raise guarded by `{idx} <= {prev_n}` in the reducer: out-of-order children are accepted", f"{rel}:{inner.lineno}")
         return
-    gids = [g.id for g in guards]
-    for sn in kwstores + appends:
-        ok = cfg.dominated_by(sn.id, gids)
-        rep.check("F-R4", f"update_args:order-guard-dominates:{'kwargs' if sn in kwstores else 'args'}", ok, "a child value is stored on a path that bypasses the order test" if not ok else "", f"{rel}:{sn.stmt.lineno}")
-    # duplicates
-    dup_guards = []
-    for n in cfg.nodes:
-        if n.kind == "test" and any(isinstance(s, ast.Raise) for s in n.stmt.body):
-            t = text(ex.x(n.stmt.test))
-            keytxt = text(ast.parse(f"{elem}.tag.lower()", mode="eval").body)
-            if t == f"{keytxt} in {kwargs_n}":
-                dup_guards.append(n.id)
-    dup_ok = bool(strict) or (bool(dup_guards) and all(cfg.dominated_by(s.id, dup_guards) for s in kwstores))
-    rep.check("F-R4", "update_args:duplicate-single-child-rejected", dup_ok, "a second occurrence of a non-repeatable child is accepted: the order test is not strict (<) and no raise on `key in kwargs` dominates the store" if not dup_ok else ("strict order test" if strict else "separate duplicate raise"), f"{rel}:{guards[0].stmt.lineno}")
+    strict = True
+    for sn, pn in pstores:
+        kind = "kwargs" if sn in kwstores else "args"
+        ordered = True
+        dup_ok_here = True
+        undecided = False
+        for q in ppl:
+            cb = q.conds_before(pn.id)
+            if cb is None:
+                continue
+            r_strict = PT.implies(cb, strict_goal)
+            if r_strict is None:
+                undecided = True
+                continue
+            if r_strict is False:
+                r_weak = PT.implies(cb, weak_goal)
+                if r_weak is False:
+                    ordered = False
+                elif kind == "kwargs":
+                    strict = False
+                    if PT.implies(cb, PT.Cond("not", [dup_atom])) is not True:
+                        dup_ok_here = False
+        if undecided and ordered:
+            rep.note(f"F-R4 undecided: too many conditions before the {kind} store")
+            continue
+        rep.check("F-R4", f"update_args:order-guard-dominates:{kind}", ordered, "a child value is stored on a path on which neither `previous position < this position` nor `both are list members` has been established: out-of-order children are accepted (or the order test is exempted by something else)" if not ordered else "", f"{rel}:{sn.stmt.lineno}")
+        if kind == "kwargs":
+            rep.check("F-R4", "update_args:duplicate-single-child-rejected", dup_ok_here, "a second occurrence of a non-repeatable child is accepted: the order test is not strict (<) and no raise on `key in kwargs` precedes the store" if not dup_ok_here else ("strict order test" if strict else "separate duplicate raise"), f"{rel}:{sn.stmt.lineno}")
     # state threading: returned tuple carries (args, kwargs, index, is_listmember); initial prev < 0
     rets = [n for n in cfg.nodes if n.kind == "return"]
     for rn in rets:
@@ -240,7 +261,7 @@ def f_r4_order(schema: Schema, rep: Report):
             a, k = text(stars[0].value), text(dstars[0].value)
             da = [d for d in odefs.get(a, []) if d.kind == "unpack"]
             dk = [d for d in odefs.get(k, []) if d.kind == "unpack"]
-            ok = bool(da) and bool(dk) and da[0].index == 0 and dk[0].index == 1 and text(da[0].value).startswith(text(call))
+            ok = bool(da) and bool(dk) and da[0].index == 0 and dk[0].index == 1 and (text(da[0].value).startswith(text(call)) or exo.t(da[0].value).startswith(exo.t(call)))
         rep.check("F-R4", "_convert:instance-from-accumulated-args", ok, f"returns {ast.unparse(v)}; expected cls(*args, **kwargs) with both taken from the reduce() result" if not ok else "", f"{rel}:{r.lineno}")
 
 
